@@ -10,6 +10,10 @@ of operations `inv op · lin · ret r` in which the single linearization event m
 (kind, key, arguments), lies between the operation's invocation and response, and determines the
 response. Hence if operation A returned before operation B was invoked, A's linearization point
 precedes B's in `s.hist`.
+
+Programs may MIX calls on the sync handle (`Cache`) and on the async handle (`AsyncCache`): the environment
+label `call op async` chooses the handle per call, and every theorem below quantifies over such mixed
+programs (see `Fv.Props.CacheConcAsync` for what differs between the two handles).
 -/
 namespace Fv.Props.C11Conc
 open Fv.Cache.Conc
